@@ -192,7 +192,8 @@ func (g *fgen) top(kind string) Top {
 		}
 		return Top{K: "mart", Name: g.uniqueName("Mart"), Scope: g.scopeMod(), Items: items}
 	case "raw":
-		return Top{K: "raw", Raw: []string{"\t.byte 1\n\t.byte 2", "RawLabel" + fmt.Sprint(r.Intn(1000)) + "::\n\tnop", "@ comment"}[r.Intn(3)]}
+		return Top{K: "raw", Raw: []string{"\t.byte 1\n\t.byte 2", "RawLabel" + fmt.Sprint(r.Intn(1000)) + "::\n\tnop", "@ comment",
+			"", "\n\t.byte 3\n\n\t.byte 4", "\t.byte 5\r\n\t.byte 6\r\n\t.byte 7", "  \t.2byte 8"}[r.Intn(7)]}
 	case "mapscripts":
 		t := Top{K: "mapscripts", Name: g.uniqueName("Map"), Scope: g.scopeMod()}
 		n := r.Intn(4)
